@@ -17,6 +17,7 @@ import hashlib
 from ..world import SimDeadlock, SimHang, SimCrash, FAULT_KINDS
 from ..gen import xmldoc as X
 from ..gen.collexpr import CollGen
+from ..gen.funcs import FUNCTIONS
 from ..refmodel import minilang as ML
 from ..canon import canon, canon_exc, is_ep_error, innermost_ep_frame
 from .. import runner
@@ -123,8 +124,123 @@ def deep_source(rng):
     return '1' + ' => abs()' * n
 
 
+ARG_POOL = [
+    "''", "'a'", "'abc'", "'1'", "' '", "'[a-z'", "'\\'", "'$1'", "'\\$'", "'x*'", "'(a)|(b)'", "'é'", "'a b  c'",
+    "'2000-01-01'", "'[Y0001]-[M01]-[D01]'", "'[H01]:[m01]:[s01].[f001] [z] [Pn]'", "'[Y'", "'[YI] [MNn,3-3] [Dwo] [FNn]'",
+    "'#,##0.00'", "'0'", "'0.0e0'", "'#'", "'0;0;0'", "'%'", "'Ww'", "'w'", "'i'", "'A'", "'a'", "'I'", "'1;o'", "'٠'",
+    "'00,0,00'", "'#a'", "'en'", "'it'", "'zz'", "'NFC'", "'nfkd'", "'xyz'", "'s'", "'x'", "'imsxq'", "'q'", "'j'",
+    "'{\"a\": [1, {\"b\": null}]}'", "'<a><b/></a>'", "'<a'", "'Wed, 06 Jun 1994 07:29:35 GMT'", "'http://x.test/a/b?c#d'",
+    "'../a'", "':'", "'p:a'", "'Q{u}a'", "'utf-8'", "'nope'", "'Europe/Rome'", "'../../etc/passwd'", "'AD'", "'ISO'",
+    "'Q{u}AD'", "'de'", "'fr'", "'[D1o] [MNn], [Y]'", "'[h]:[m01] [PN]'", "'[ZN] [z] [Z]'", "'[Y,2-2]/[M,3]'", "'[E] [C]'",
+    "'[W] [w] [F1] [d]'", "'[Y;x]'", "'[[Y]]'", "'[H01][m01][s01][f1,3-3]'", "'[Yi] [YW] [Y*]'", "'0.0#e00'", "'00.00%'",
+    "'\\p{L}+'", "'\\P{IsBasicLatin}'", "'[a-z-[aeiou]]'", "'(a|b)*c{2,3}?'", "'^.*$'", "'\\1'", "'(?i)a'", "'a{99999}'",
+    '0', '1', '-1', '2', '3', '10', '255', '1.5', '-0.0e0', '1e308', '1e-320', '0.1', '1e0', '4.5', '-2.5',
+    'xs:double("NaN")', 'xs:double("INF")', 'xs:float("-INF")', 'xs:float("1.5")', '12345678901234567890123456789',
+    '2147483648', '-9223372036854775809', '1114112', '55296', '0.000000000000000000000000000001', '1e400', '-1e400',
+    'true()', 'false()', '()', '(1, 2, 3)', "('a', 'b')", '(1, "a")', '(1 to 5)', '(3, 1, 2)', '(0, -1)',
+    '[1, 2]', '[]', '[(), (1, 2)]', '[[1], [2, [3]]]', 'map{}', "map{'a': 1}", 'map{1: (1, 2)}', "map{'liberal': true()}",
+    "map{'duplicates': 'reject'}", "map{'duplicates': 'nope'}", "map{'method': 'xml', 'indent': true()}", "map{'escape': 1}",
+    "map{'fallback': abs#1}", "map{'a': map{'a': [1]}}",
+    '.', '/', '/*', '//@*', '//text()', '/r/a', '/r/a/b', '//*', '/r/c', '(/r/a, /r/c)', '/r/a/@x', '/nothing',
+    'xs:date("2000-01-01")', 'xs:date("-0001-12-31+14:00")', 'xs:dateTime("9999-12-31T23:59:59.999Z")',
+    'xs:dateTime("2000-02-29T12:00:00-05:00")', 'xs:time("24:00:00")', 'xs:time("12:30:00.5+01:00")',
+    'xs:duration("P1Y2M3DT4H5M6.7S")', 'xs:dayTimeDuration("-PT0S")', 'xs:dayTimeDuration("PT14H")',
+    'xs:dayTimeDuration("PT15H")', 'xs:dayTimeDuration("PT1M30S")', 'xs:yearMonthDuration("P99999999Y")',
+    'xs:yearMonthDuration("-P1M")', 'xs:QName("p:a")', 'xs:anyURI("http://x/y z")', 'xs:hexBinary("0aFF")',
+    'xs:base64Binary("YQ==")', 'xs:untypedAtomic("1")', 'xs:untypedAtomic("x")', 'xs:gYear("2000")', 'xs:gMonthDay("--02-29")',
+    'xs:integer(5)', 'xs:unsignedByte(255)', 'xs:long("-9223372036854775808")', 'xs:NCName("a")', 'xs:language("en-US")',
+    'abs#1', 'concat#3', 'function($x) { $x }', 'function($a, $b) { $a }', 'function() { 1 }', 'true#0', 'position#0',
+    'function($x) { error() }', 'function($x as xs:integer) as xs:string { $x }', 'map:get(?, 1)', 'math:pow(?, 2)',
+]
+
+
+def funcall_source(rng, version='3.1'):
+    """A call of any library function with arguments of any type (function conversion rules, casts, pictures, ...)."""
+    order = ['1.0', '2.0', '3.0', '3.1']
+    avail = [f for f in FUNCTIONS if order.index(f[3]) <= order.index(version)]
+    name, lo, hi, _v = rng.choice(avail)
+    if hi is None:
+        hi = lo + 3
+    n = rng.randint(lo, hi) if rng.random() < 0.9 else rng.choice([max(0, lo - 1), hi + 1])
+    pool = ARG_POOL if version >= '3.0' else [a for a in ARG_POOL if not re.search(r'[\[{#?]|function', a.split("'")[0])]
+    if version == '1.0':
+        pool = [a for a in pool if not re.search(r'xs:|\(.*,|to ', a) and a not in ('()',)]
+    args = [rng.choice(pool) for _ in range(n)]
+    if version >= '3.0' and not name.startswith('xs:') and rng.random() < 0.5 and name.count(':') == 0:
+        name = 'fn:' + name
+    x = rng.random()
+    if version >= '3.1' and x < 0.08 and n > 0:
+        return args[0] + ' => ' + name + '(' + ', '.join(args[1:]) + ')'
+    if version >= '3.1' and x < 0.16:
+        return 'apply(%s#%d, [%s])' % (name, n, ', '.join(args))
+    if version >= '3.0' and x < 0.24 and n > 0:
+        i = rng.randrange(n)
+        held = args[i]
+        args2 = list(args)
+        args2[i] = '?'
+        return '%s(%s)(%s)' % (name, ', '.join(args2), held)
+    if version >= '3.0' and x < 0.3:
+        return 'for-each(%s, %s#1)' % (rng.choice(pool), name) if lo <= 1 <= hi else '%s#%d' % (name, n)
+    return '%s(%s)' % (name, ', '.join(args))
+
+
+BINARY_OPS = ['+', '-', '*', 'div', 'idiv', 'mod', '=', '!=', '<', '<=', '>', '>=', 'eq', 'ne', 'lt', 'le', 'gt', 'ge',
+              'is', '<<', '>>', 'and', 'or', '|', 'union', 'intersect', 'except', 'to', '||', '!', ',', '/', '//']
+TYPE_NAMES = ['xs:integer', 'xs:decimal', 'xs:double', 'xs:float', 'xs:string', 'xs:boolean', 'xs:date', 'xs:dateTime',
+              'xs:time', 'xs:duration', 'xs:dayTimeDuration', 'xs:yearMonthDuration', 'xs:QName', 'xs:anyURI',
+              'xs:hexBinary', 'xs:base64Binary', 'xs:untypedAtomic', 'xs:gYear', 'xs:gMonthDay', 'xs:byte',
+              'xs:unsignedLong', 'xs:NCName', 'xs:language', 'xs:token', 'xs:ID', 'xs:NMTOKENS', 'xs:anyAtomicType',
+              'xs:numeric', 'xs:NOTATION', 'xs:dateTimeStamp', 'xs:error', 'xs:nope', 'item()', 'node()', 'element()',
+              'attribute(x)', 'map(*)', 'array(*)', 'function(*)', 'empty-sequence()', 'map(xs:integer, item()*)',
+              'array(xs:integer)', 'function(item()) as item()', 'document-node(element(r))', 'text()']
+
+
+def opcall_source(rng, version='3.1'):
+    """Operators, casts, type tests, predicates, lookups and paths over arguments of any type."""
+    pool = ARG_POOL if version >= '3.0' else [a for a in ARG_POOL if not re.search(r'[\[{#?]|function', a.split("'")[0])]
+    if version == '1.0':
+        pool = [a for a in pool if not re.search(r'xs:|\(.*,|to ', a) and a not in ('()',)]
+    a, b, c = rng.choice(pool), rng.choice(pool), rng.choice(pool)
+
+    def fill(tmpl, *args):
+        parts = tmpl.split('%s')
+        return ''.join(p + (args[i] if i < len(parts) - 1 else '') for i, p in enumerate(parts))
+    k = rng.randrange(14)
+    if k < 5:
+        ops = BINARY_OPS if version != '1.0' else ['+', '-', '*', 'div', 'mod', '=', '!=', '<', '<=', '>', '>=', 'and',
+                                                   'or', '|', '/', '//']
+        return fill('%s %s %s', a, rng.choice(ops), b)
+    if version == '1.0':
+        return fill(rng.choice(['-%s', '%s[1]', '(%s)[1]', '%s/..', '%s/@*', '- - %s']), a)
+    if k == 5:
+        t = rng.choice(TYPE_NAMES) + rng.choice(['', '', '?', '*', '+'])
+        return fill('%s %s %s', a, rng.choice(['instance of', 'treat as', 'cast as', 'castable as']), t)
+    if k == 6:
+        return fill(rng.choice(['-%s', '+%s', '- - %s', 'not(%s)', 'boolean(%s)', 'string(%s)', 'data(%s)', 'count(%s)']), a)
+    if k == 7:
+        return fill('(%s)[%s]', a, b)
+    if k == 8:
+        return fill(rng.choice(['if (%s) then %s else %s', 'for $x in %s return ($x, %s, %s)',
+                           'some $x in %s satisfies $x = %s or %s', 'every $x in %s satisfies $x != %s and %s']), a, b, c)
+    if k == 9 and version >= '3.1':
+        return fill(rng.choice(['(%s)?(%s)', '(%s)?*', '(%s)(%s)', '%s => %s()', 'map{%s: %s}', '[%s, %s]',
+                           'array{%s, %s}', '(%s) ! (%s)']), a, b)
+    if k == 10:
+        return fill(rng.choice(['%s/%s', '%s//%s', '(%s)/(%s)', '%s/self::node()[%s]', '%s/ancestor-or-self::*[%s]']), a, b)
+    if k == 11 and version >= '3.0':
+        return fill(rng.choice(['let $x := %s return $x(%s)', 'let $f := function($a as xs:integer) as xs:string { $a } return $f(%s, %s)',
+                           'function($a) { $a + %s }(%s)', '(%s)(%s)']), a, b)
+    if k == 12:
+        return fill('%s %s %s %s %s', a, rng.choice(BINARY_OPS), b, rng.choice(BINARY_OPS), c)
+    return fill('(%s, %s)[%s]', a, b, c)
+
+
 def valid_source(rng):
-    k = rng.randrange(8)
+    k = rng.randrange(13)
+    if k >= 11:
+        return opcall_source(rng, rng.choice(['1.0', '2.0', '3.0', '3.1', '3.1', '3.1']))
+    if k >= 8:
+        return funcall_source(rng, rng.choice(['1.0', '2.0', '3.0', '3.1', '3.1', '3.1']))
     if k == 0:
         return rng.choice(X.PATHS)
     if k == 1:
@@ -194,7 +310,7 @@ def gen_case(rng, tier):
             ops.append({'op': 'eval', 'p': p, 'src': src, 'kind': kind, 'lazy': rng.random() < 0.3,
                         'vars': rng.random() < 0.5, 'probes': probes})
         elif x < 0.9:
-            uri = rng.choice(URIS)
+            uri = rng.choice(sorted(files)) if rng.random() < 0.6 else rng.choice(URIS)
             arg = "'%s'" % uri.replace("'", "''")
             if rng.random() < 0.15:
                 arg = '(%s, %s)' % (arg, "'%s'" % rng.choice(URIS))
